@@ -835,8 +835,14 @@ def fill(ck):
         ck.ob("C11.eof-closes", fi, m.ast, bool(rel) and not (sat & {1, 7}), "'no progress' (return 0) is reported only when read_from_fd returned None or 0, never after bytes were received")
     # EOF / would-block produce no growth
     for m in sizes:
-        ok = has(gf[m.id], "%s is None" % nvar, False)
-        ck.ob("C11.fill-pair", fi, m.ast, ok, "no size update when read_from_fd returned None (would block)")
+        rel = [(t, p) for t, p in gf[m.id] if not t.startswith("@") and nvar in {x.id for x in ast.walk(ast.parse(t, mode="eval")) if isinstance(x, ast.Name)}]
+        can_be_none = True
+        if rel:
+            try:
+                can_be_none = all(bool(q.fold(ast.parse(t, mode="eval").body, {nvar: None})) == p for t, p in rel)
+            except (q.NotFoldable, TypeError):
+                can_be_none = True
+        ck.ob("C11.fill-pair", fi, m.ast, not can_be_none, "no size update when read_from_fd returned None (would block)")
 
 
 def read_into(ck):
